@@ -36,9 +36,6 @@ def viewTok (k : String) : Option (String × Int) → String
   | none => s!"{k}=-"
   | some (v, t) => s!"{k}={v}:{t}"
 
-def St.view (st : St) (k : String) : Option (String × Int) :=
-  (st.store.live k).map fun e => (e.val, st.store.pttl k)
-
 def modelDump (st : St) (keys : List String) : String := joinSp (keys.map fun k => viewTok k (st.view k))
 def specDump (a : Spec.ASt) (keys : List String) : String := joinSp (keys.map fun k => viewTok k (a.view k))
 
